@@ -138,19 +138,22 @@ def run_batch(job):
 
 # ------------------------------------------------------------------------------------------------------------
 def token_jobs(L, combos):
-    for ctxname, lang in combos:
+    """All strings of length <= min(L, 3) for every (context, language) first, then the longer ones per combination
+    (so that a deadline cuts the longest strings of the last combinations, never a whole short length)."""
+    phases = [(c, 1, min(L, 3)) for c in combos] + [(c, 4, L) for c in combos if L >= 4]
+    for (ctxname, lang), lo, hi in phases:
         ext = ".c" if lang == "c" else ".cpp"
         n = 0
         files = {}
-        for k in range(1, L + 1):
+        for k in range(lo, hi + 1):
             for t in itertools.product(range(len(ALPHA)), repeat=k):
-                files["t%d%s" % (n, ext)] = CONTEXTS[ctxname] % " ".join(ALPHA[i] for i in t)
+                files["t%d_%d%s" % (k, n, ext)] = CONTEXTS[ctxname] % " ".join(ALPHA[i] for i in t)
                 n += 1
                 if len(files) >= BATCH:
-                    yield {"id": ["T", ctxname, lang, n], "files": files, "args": []}
+                    yield {"id": ["T", ctxname, lang, k, n], "files": files, "args": []}
                     files = {}
         if files:
-            yield {"id": ["T", ctxname, lang, n], "files": files, "args": []}
+            yield {"id": ["T", ctxname, lang, hi, n], "files": files, "args": []}
 
 
 def template_token_jobs(L):
